@@ -440,13 +440,4 @@ def adminWitness2 : Options :=
   { scheme := sPostgres, user := [0x75], host := [0x61, 0x40, 0x62], path := [0x2F, 0x64, 0x62],
     query := [(kAdminAcct, []), (kAdminPass, [])] }
 
-theorem adminWitness_wf : adminWitness.WF = true := by decide
-theorem adminWitness2_wf : adminWitness2.WF = true := by decide
-
-theorem adminWitness_ok : pgNew adminWitness = .ok (pgValue adminWitness 30 300 10 0) := by decide
-theorem adminWitness2_ok : pgNew adminWitness2 = .ok (pgValue adminWitness2 30 300 10 0) := by decide
-
-theorem adminWitness_scheme : (parseUri (intoUriWith [] (adminExpected adminWitness))).scheme = [0x61, 0x64, 0x6D] := by decide
-theorem adminWitness2_user : (parseUri (intoUriWith [] (adminExpected adminWitness2))).user = [0x61] := by decide
-
 end Askar.PgOptions
